@@ -11,8 +11,8 @@ CONSTANT VKWeights = {"w1"}
 CONSTANT Bits = {8, 16}
 CONSTANT Flips = {FALSE, TRUE}
 CONSTANT Accs = {"U55_128", "U65_512"}
-CONSTANT ClearOnCompile = FALSE
+CONSTANT ClearOnCompile = TRUE
 CONSTANT ExtendedKey = FALSE
-CONSTANT Assume = TRUE
+CONSTANT Assume = FALSE
 INVARIANT Coherent
 CHECK_DEADLOCK FALSE
